@@ -34,6 +34,7 @@ RULE += (" " + 'Rule lists also name rules by non-canonical UUID spellings (uppe
 RULE += (" A quarter of the streams starts with an action: global template document carrying a product: it is merged over every following detection rule (expectations use the merged documents) and must leave filters as they are.")
 RULE += (" A quarter of the rules has two conditions; a quarter of the streams derives a further rule from the last one through an action: repeat document.")
 RULE += (" Rules have an id and a name, only a name or only an id; rule lists mix ids and names in both orders.")
+RULE += (" Filter documents stand at the end of the stream or between the rule documents (also directly before an action: repeat document).")
 ASSUMPTIONS = [
     "vf/ref is the specification of rule and filter conditions; atoms independent",
     "the library's random prefix is drawn from random.choices; the case fixes random.seed",
@@ -153,7 +154,14 @@ def check_case(case: dict) -> Outcome:
     if len({r["title"] for r in rules}) != len(rules):
         out.skipped = "rule titles are not distinct (results are keyed by title)"
         return out
-    stream = stream_rules + filters
+    fp = case.get("filter_pos")
+    if isinstance(fp, int) and 0 <= fp < len(stream_rules):
+        # filter documents in the middle of the stream (also directly before an 'action: repeat' document, which
+        # continues the previous *rule*): the position of a filter document does not matter
+        stream = stream_rules[:fp] + filters + stream_rules[fp:]
+        out.label("filters-inside-stream")
+    else:
+        stream = stream_rules + filters
     gp = case.get("global_product")
     if gp:
         # a collection-level template (action: global) in front of the stream: its values are merged over
@@ -296,6 +304,8 @@ def cases(draw):
             "suffix": draw(st.sampled_from(["", "", "_m"]))}
     if draw(st.integers(0, 3)) == 0:
         case["global_product"] = draw(st.sampled_from(["win", "linux", "other"]))
+    if draw(st.integers(0, 2)) == 0:
+        case["filter_pos"] = draw(st.integers(0, len(rules) - 1))
     return case
 
 
